@@ -14,7 +14,7 @@ from ..gen import service as S
 
 PID = "C10"
 RULE = (
-    "hostile label sets over a small alphabet: flat names, '/'-paths of depth 1-4, labels that are '/'-suffixes or prefixes of other labels, "
+    "hostile label sets over a small alphabet (incl. names that end with the text of another name: A, BA, Plant A): flat names, '/'-paths of depth 1-4, labels that are '/'-suffixes or prefixes of other labels, "
     "labels or components equal to generated unit-operation names (O1, O2 ...), the root name as label, names with inner spaces, empty "
     "labels, duplicate stream names within and across zones; with and without a user zone tree (built from the label set; labels then "
     "given as full path, relative path or unambiguous leaf name; labelled non-leaf nodes and ambiguous suffixes are flagged classes). "
@@ -186,7 +186,7 @@ def eval_case(case) -> Outcome:
 
 
 # --------------------------------------------------------------------------- generators
-COMP = ["A", "B", "C", "O1", "O2", "Site", "Plant A", "X"]
+COMP = ["A", "B", "C", "BA", "O1", "O2", "Site", "Plant A", "X"]  # "BA" / "Plant A" end with the text "A": string suffix, not a path suffix
 
 
 @st.composite
@@ -195,7 +195,7 @@ def hostile_labels(draw):
     labels = []
     for _ in range(n):
         depth = draw(st.sampled_from([1, 1, 2, 2, 3, 4]))
-        comps = [draw(st.sampled_from(COMP[:3] if draw(st.integers(0, 3)) else COMP)) for _ in range(depth)]
+        comps = [draw(st.sampled_from(COMP[:4] if draw(st.integers(0, 3)) else COMP)) for _ in range(depth)]
         labels.append("/".join(comps))
     # encourage suffix / prefix pairs
     if labels and draw(st.booleans()):
@@ -204,7 +204,7 @@ def hostile_labels(draw):
         if len(parts) >= 2 and draw(st.booleans()):
             labels.append("/".join(parts[draw(st.integers(1, len(parts) - 1)):]))
         else:
-            labels.append(base + "/" + draw(st.sampled_from(COMP[:4])))
+            labels.append(base + "/" + draw(st.sampled_from(COMP[:5])))
     return sorted(set(labels))
 
 
@@ -250,6 +250,10 @@ def user_tree_case(draw):
     n = draw(st.integers(len(paths), len(paths) + 3))
     streams, resolved = [], []
     base = _streams(draw, ["x"], n, allow_empty=False)
+    # half of the trees carry streams on leaf nodes only (labels on inner nodes are known finding C10-F2 and hide the rest)
+    leaves = [p for p in paths if not any(q != p and q[: len(p)] == p for q in all_paths)]
+    if draw(st.booleans()) and leaves:
+        paths = leaves
     for i, s in enumerate(base):
         p = paths[i] if i < len(paths) else draw(st.sampled_from(paths))
         if any(q != p and q[: len(p)] == p for q in all_paths):
@@ -266,6 +270,11 @@ def user_tree_case(draw):
         comps = tuple(lab.split("/"))
         cands = [q for q in [("Site",)] + [("Site",) + a for a in all_paths] if q[-len(comps):] == comps]
         fulls = {("Site",) + a for a in all_paths} | {("Site",)}
+        if ((comps in fulls and comps != full) or (comps not in fulls and len(cands) != 1)) and draw(st.integers(0, 3)) > 0:
+            # an ambiguous short form (known finding C10-F3) is kept in a quarter of the cases only
+            lab = "/".join(full)
+            comps = tuple(lab.split("/"))
+            cands = [full]
         if comps in fulls:
             if comps != full:
                 classes.add("ambiguous-suffix")  # the text is the full path of a different node
@@ -285,7 +294,7 @@ def user_tree_case(draw):
 
 
 def strategy(tier):
-    return st.one_of(synthesised_case(), synthesised_case(), user_tree_case())
+    return st.one_of(synthesised_case(), synthesised_case(), user_tree_case(), user_tree_case())
 
 
 PARTS = [Part("trees", eval_case, {"quick": 3000, "thorough": 100000}, strategy=strategy, min_nontrivial={"quick": 600, "thorough": 15000})]
